@@ -79,6 +79,9 @@ class Engine(object):
         self.solver_seconds = 0.0
         self.path_sat_known = False
         self.stats = {'branch_checks': 0}
+        self.side_mode = 'emit'
+        self.collected = []
+        self.quotients = {}           # (dividend uid, divisor uid) -> (quotient term, defining assumption term)
 
     # -- symbolic inputs --------------------------------------------------------------
     def real(self, name):
@@ -193,6 +196,12 @@ class Engine(object):
         # cheap syntactic discharge: already among the path facts
         if term in self.pc:
             return
+        if self.side_mode == 'collect':
+            # the harness takes over: it must discharge the condition with discharge_side(); whatever is left is
+            # emitted as an ordinary obligation at the end of the path (nothing is dropped)
+            self.collected.append({'kind': kind, 'term': term, 'pos': len(self.pc), 'done': False, 'path': self.paths})
+            self.pc.append(term)
+            return
         self.obligations.append(Obligation('%s.%s#p%d.%d' % (self.group, kind, self.paths, len(self.obligations)),
                                            self.pc, term, self.paths, kind='side'))
         # assert-then-assume
@@ -201,6 +210,61 @@ class Engine(object):
     def note(self, s):
         if s not in self.notes:
             self.notes.append(s)
+
+    # -- lemmas by abstraction (opaque / reveal) --------------------------------------------------
+    def abstract_lemma(self, name, conc, facts, goal, pc=None):
+        """Prove goal(conc) in two machine-checked steps:
+          (a) every fact(conc) is an obligation under `pc` (default: the current path condition) -- typically ring identities
+              about the big concrete terms, decided by the normaliser;
+          (b) the CLOSED formula  forall fresh v:  facts(v) => goal(v)  is an obligation with an empty path condition, where each
+              concrete value was replaced by a fresh variable of the same sort/shape (the definitions are hidden from the solver).
+        goal(conc) then follows by instantiating v := conc; `facts` and `goal` must be schematic (apply the same operations to
+        whatever values they receive).  Returns goal(conc) as a Bool term; the caller may add it to the path condition."""
+        pc = list(self.pc if pc is None else pc)
+        fc = facts(conc)
+        for label, cond in fc:
+            for k, t in enumerate(self._cond_terms(cond)):
+                self.obligations.append(Obligation('%s.fact.%s%s#p%d' % (name, label, '' if k == 0 else '[%d]' % k, self.paths), pc, t, self.paths, 'lemma'))
+        absv = {}
+        for key, v in conc.items():
+            absv[key] = self._fresh_like('%s~%s' % (name, key), v)
+        fa = []
+        for label, cond in facts(absv):
+            fa.extend(self._cond_terms(cond))
+        ga = tm.and_(*self._cond_terms(goal(absv)))
+        self.obligations.append(Obligation('%s.abstract#p%d' % (name, self.paths), [t for t in fa if t.op != 'bconst' or not t.args[0]], ga, self.paths, 'lemma'))
+        return tm.and_(*self._cond_terms(goal(conc)))
+
+    def _fresh_like(self, base, v):
+        if isinstance(v, Sym):
+            if v.is_concrete():
+                return v
+            self._abs_names = getattr(self, '_abs_names', 0) + 1
+            return Sym(tm.var('%s!a%d' % (base, self._abs_names), v.t.sort))
+        if isinstance(v, _np.ndarray):
+            out = _np.empty(v.shape, dtype=object)
+            for idx in _np.ndindex(*v.shape):
+                out[idx] = self._fresh_like('%s_%s' % (base, '_'.join(str(i) for i in idx)), v[idx])
+            return out.view(symnp.SymArray)
+        if isinstance(v, (list, tuple)):
+            return type(v)(self._fresh_like('%s_%d' % (base, i), x) for i, x in enumerate(v))
+        return v
+
+    def discharge_side(self, entry, name, conc, facts, goal):
+        """discharge a collected side condition by an abstraction lemma whose conclusion is exactly that condition;
+        the lemma's facts are proved under the path condition as it was when the side condition arose (no circularity)"""
+        g = self.abstract_lemma(name, conc, facts, goal, pc=self.pc[:entry['pos']])
+        if g is not entry['term']:
+            raise AssertionError('abstraction lemma %s concludes %s, not the side condition %s' % (name, tm.show(g), tm.show(entry['term'])))
+        entry['done'] = True
+
+    def flush_collected(self):
+        for e in self.collected:
+            if not e['done']:
+                self.obligations.append(Obligation('%s.%s#p%d.%d' % (self.group, e['kind'], e['path'], len(self.obligations)),
+                                                   self.pc[:e['pos']], e['term'], e['path'], kind='side'))
+                e['done'] = True
+        self.collected = []
 
     # -- branching ---------------------------------------------------------------------
     def _sat(self, terms, timeout_ms):
@@ -253,10 +317,12 @@ class Engine(object):
                 self.pc = []
                 self._names = 0
                 self.path_sat_known = False
+                self.collected = []
                 try:
                     harness(self)
+                    self.flush_collected()
                 except PathAbandoned:
-                    pass
+                    self.flush_collected()
                 except LeftFragment as e:
                     self.left_fragment.append((self.paths, '%s\n%s' % (e, _short_tb())))
                 except TooManyPaths:
@@ -283,14 +349,22 @@ class Engine(object):
                     ob.result, ob.backend = 'proved', 'trivial'
                     continue
                 try:
-                    if _ring_goal(ob.goal):
-                        ob.result, ob.backend = 'proved', 'ringnorm'
+                    rg = _ring_goal(ob.goal, ob.pc)
+                    if rg:
+                        ob.result, ob.backend = 'proved', ('ringnorm' if rg is True else 'ringnorm-mod-hyps')
                         ob.seconds = time.time() - t0
+                        continue
+                    if ob.kind == 'side' and ob.goal.op == 'le' and tm.is_const(ob.goal.args[0]) and ob.goal.args[0].args[0] == 0 \
+                            and _is_sum_of_squares(ob.goal.args[1]):
+                        ob.result, ob.backend = 'proved', 'sum-of-squares'
                         continue
                 except RecursionError:
                     pass
             text, pure_real, _vs = smt.to_smt2(ob.pc, ob.goal)
-            pending.append((k, text, pure_real))
+            relaxed = None
+            if not pure_real and ob.expect == 'unsat':
+                relaxed = smt.to_smt2_relaxed(ob.pc, ob.goal)
+            pending.append((k, text, pure_real, relaxed))
         return pending
 
     def discharge(self, use_cvc5=True):
@@ -309,22 +383,47 @@ def _short_tb():
     return '\n'.join(keep[-6:])
 
 
-def _ring_goal(goal):
-    """try to decide the goal by normalisation alone; True / None"""
+def _ring_goal(goal, pc=()):
+    """try to decide the goal by normalisation alone (modulo the polynomial equalities among pc); True / None"""
     if goal.op == 'bconst':
         return True if goal.args[0] else None
     if goal.op == 'eq':
         a, b = goal.args
-        if a.sort != tm.B and poly.equal(a, b):
-            return True
+        if a.sort != tm.B:
+            if poly.equal(a, b):
+                return True
+            eqs = [t for t in pc if t.op == 'eq' and t.args[0].sort != tm.B]
+            if eqs and poly.equal_mod(a, b, eqs):
+                return 'mod'
         return None
     if goal.op == 'and':
-        return True if all(_ring_goal(g) for g in goal.args) else None
+        rs = [_ring_goal(g, pc) for g in goal.args]
+        if all(rs):
+            return 'mod' if 'mod' in rs else True
+        return None
     if goal.op == 'le':
         a, b = goal.args
         if poly.equal(a, b):
             return True
     return None
+
+
+def _is_sum_of_squares(t):
+    """structural: t is a sum whose summands are x*x (same node) or non-negative constants"""
+    if t.op == 'add':
+        return all(_is_sum_of_squares(a) for a in t.args)
+    if t.op == 'mul':
+        a, b = t.args
+        if a is b:
+            return True
+        if a.op == 'const' and a.args[0] >= 0:
+            return _is_sum_of_squares(b)
+        return False
+    if t.op == 'const':
+        return t.args[0] >= 0
+    if t.op == 'toreal':
+        return _is_sum_of_squares(t.args[0])
+    return False
 
 
 def _discharge_one(ob, timeout_ms, use_cvc5=True):
